@@ -44,7 +44,9 @@ ASSUMPTIONS = [
     "corrected threshold p < 1e-9; smaller deviations pass",
 ]
 ASSUMPTIONS += _m.ASSUMPTIONS_C
-MONITORS = ["pool"]
+# "draws": a pool population that needs more than 2e6 latent draws is
+# stopped (exit status 21): it never delivers a pool of the requested size
+MONITORS = ["pool", "draws"]
 
 
 def make_history(case):
@@ -63,6 +65,14 @@ def judge(case, reports, add, stats):
         rows += c.get("pool.rows", 0) + c.get("support.points", 0)
         if r.get("status") == "exception":
             classes.append("errored:" + runcheck.exc_key(r))
+    for i, r in enumerate(reports):
+        if r.get("returncode") == 21:
+            db = (r.get("data") or {}).get("draw_bound") or {}
+            add("population-draw-bound@%s" % db.get("proposal"),
+                f"step {i}: more than {db.get('draws')} latent draws "
+                f"({db.get('batches')} batches of {db.get('drawsize')}) in "
+                f"one pool population", {"step": i})
+            classes.append("population-never-ends")
     last = reports[-1]
     ok = last.get("status") == "completed"
     if ok:
